@@ -587,7 +587,7 @@ func genSites() {
 	var maps []mapSite
 	var clocks []clockSite
 	var gos []goSite
-	var selects, strOrders []simpleSite
+	var selects, strOrders, reuses []simpleSite
 	var reads []fieldRead
 	var allReads []fieldRead
 	scan := func(dirs []string) {
@@ -749,7 +749,26 @@ func genSites() {
 										maps = append(maps, mapSite{file: rel, fn: fn, operand: normText(x), body: normText(x), hash: hash16(normText(x))})
 									case "sort.Strings", "strings.Compare", "sort.StringSlice.Sort", "sort.StringSlice.Less":
 										strOrders = append(strOrders, simpleSite{rel, fn, normText(x)})
+									case "sync.Pool.Get", "sync.Pool.Put", "runtime.SetFinalizer", "runtime.AddCleanup",
+										"reflect.Value.Pointer", "reflect.Value.UnsafeAddr", "reflect.Value.UnsafePointer":
+										// objects recycled across uses (their old content / identity is schedule dependent),
+										// finalizers (run when the collector decides), addresses as values
+										reuses = append(reuses, simpleSite{rel, fn, normText(x)})
 									}
+								}
+								// an address turned into a number: uintptr(unsafe.Pointer(p)) — its value and order differ from run to run
+								if tv, ok := info.Types[x.Fun]; ok && tv.IsType() && len(x.Args) == 1 {
+									if bt, ok := tv.Type.Underlying().(*types.Basic); ok && bt.Kind() == types.Uintptr {
+										if at, ok := info.Types[x.Args[0]]; ok && at.Type != nil {
+											if ab, ok := at.Type.Underlying().(*types.Basic); ok && ab.Kind() == types.UnsafePointer {
+												reuses = append(reuses, simpleSite{rel, fn, normText(x)})
+											}
+										}
+									}
+								}
+							case *ast.BasicLit:
+								if x.Kind == token.STRING && strings.Contains(x.Value, "%p") {
+									reuses = append(reuses, simpleSite{rel, fn, "format verb %p in " + x.Value})
 								}
 							case *ast.SelectorExpr:
 								if k := ctx.fieldKey(x); k != "" {
@@ -793,6 +812,7 @@ func genSites() {
 	// the simulator's dependency Akita (engine, ports, memory system, tracing, …): the packages the
 	// runner links, scanned the same way; their sites are listed separately (audited, not modelled)
 	simMaps, simClocks, simGos, simSelects, simStr, simReads := maps, clocks, gos, selects, strOrders, allReads
+	simReuses := reuses
 	maps, clocks, gos, selects, strOrders, allReads = nil, nil, nil, nil, nil, nil
 	listCmd := exec.Command("go", "list", "-f", "{{.ImportPath}} {{.Dir}}", "-deps", "github.com/sarchlab/mgpusim/v4/amd/samples/runner")
 	listCmd.Dir = root
@@ -818,6 +838,7 @@ func genSites() {
 	scan(depDirs)
 	depMaps, depClocks, depGos := maps, clocks, gos
 	maps, clocks, gos, selects, strOrders, allReads = simMaps, simClocks, simGos, simSelects, simStr, simReads
+	reuses = simReuses
 	depName := func(file string) string {
 		abs := file
 		if !filepath.IsAbs(abs) {
@@ -1004,6 +1025,7 @@ deriving Repr, DecidableEq
 	b.WriteString("]\n\n")
 
 	emit("selectSites", "every `select` with at least two communications (Go picks among ready ones at random): (file, function, cases)", selects)
+	emit("reuseSites", "every recycling of objects (sync.Pool), finalizer, and address used as a value (uintptr(unsafe.Pointer), reflect pointers) — `%p` verbs in format strings included: (file, function, expression)", reuses)
 	emit("stringOrderSites", "every ordering of strings (`<` on strings, sort.Strings, strings.Compare): (file, function, expression)", strOrders)
 	b.WriteString("end Gen\n")
 	writeIfChanged("Sites.lean", b.String())
